@@ -126,6 +126,36 @@ def evaluate():
             return None
         wext.append(guard(wire_and_external))
 
+    # the scheduler: three modules (one input port, one output port each) declared in every order, each input port fed
+    # by one of the three modules or externally: what the real execute() does (execution order, or the invocation log
+    # of a raising run)
+    import itertools
+    sched = []
+    if nD >= 1 and nI >= 1:
+        P = W.PortType(DTs[0], ILs[0])
+        for perm in itertools.permutations(range(3)):
+            for src in itertools.product([None, 0, 1, 2], repeat=3):
+                def run_one():
+                    dg = W.WiringDiagram()
+                    for m in perm:
+                        dg.add_module(W.ModuleSpec(f"m{m}", inputs={"i": P}, outputs={"o": P}))
+                    for b in range(3):
+                        if src[b] is not None:
+                            dg.connect(f"m{src[b]}", "o", f"m{b}", "i")
+                    ex = R.DiagramExecutor(dg)
+                    log = []
+                    for m in range(3):
+                        ex.register_module(f"m{m}", (lambda mm: lambda inputs: (log.append(mm), {"o": mm})[1])(m))
+                    extv = {f"m{b}": {"i": 5} for b in range(3) if src[b] is None}
+                    try:
+                        rep = ex.execute(extv)
+                    except WiringError:
+                        return ("err", list(log))
+                    if list(rep.modules) != rep.execution_order or log != [int(x[1:]) for x in rep.execution_order]:
+                        return None
+                    return ("ok", [int(x[1:]) for x in rep.execution_order])
+                sched.append((list(perm), list(src), guard(run_one)))
+
     # raw values take the port's label
     def raw(fn):
         out = []
@@ -142,7 +172,7 @@ def evaluate():
     facts = {
         "nD": nD, "nI": nI, "dts": [d.value for d in DTs], "ils": [l.name for l in ILs],
         "quads": quads, "can": can, "req": req, "con": con, "cout": cout, "cin": cin,
-        "wchk": wchk, "wunchk": wunchk, "wext": wext, "rawout": raw(R._coerce_output), "rawin": raw(R._coerce_input),
+        "wchk": wchk, "wunchk": wunchk, "wext": wext, "sched": sched, "rawout": raw(R._coerce_output), "rawin": raw(R._coerce_input),
     }
     return facts, sorted(set(notes))[:5]
 
@@ -211,6 +241,23 @@ def render(f, notes) -> str:
         tbl("wireAndExternal", f.get("wext", []),
             "execute over a wire whose destination port is ALSO given an external value, destination module declared first: "
             "rejected = WiringError before any handler was invoked (anything else, also a WiringError after an invocation, is unknown)"),
+        "/-- one run of the real scheduler: modules declared in the order `perm`; `src[b]` = the module wired into module",
+        "    b's input port (`none` = fed externally); `known` = the run ended in a report or a WiringError; `ok` = a report;",
+        "    `log` = the execution order (= the handler invocations) of a successful run, the invocations of a raising one -/",
+        "structure SchedRow where",
+        "  perm : List Nat",
+        "  src : List (Option Nat)",
+        "  known : Bool",
+        "  ok : Bool",
+        "  log : List Nat",
+        "  deriving DecidableEq, Repr",
+        "",
+        "def schedule : List SchedRow := [\n" + ",\n".join(
+            "  ⟨%s, [%s], %s, %s, %s⟩" % (perm, ", ".join("none" if x is None else f"some {x}" for x in src),
+                                        "true" if r else "false", "true" if (r and r[0] == "ok") else "false",
+                                        (r[1] if r else []))
+            for perm, src, r in f.get("sched", [])) + "]",
+        "",
         rawtbl("coerceOutputRaw", f["rawout"], "_coerce_output(raw, port): label of the result"),
         rawtbl("coerceInputRaw", f["rawin"], "_coerce_input(raw, port): label of the result"),
         "end Operon.Gen.WiringFlow",
@@ -222,8 +269,8 @@ def render(f, notes) -> str:
 def run() -> dict:
     facts, notes = evaluate()
     changed = write_if_changed(OUT, render(facts, notes))
-    unknown = 0 if facts is None else sum(1 for k in ("can", "req", "con", "cout", "cin", "wchk", "wunchk", "wext", "rawout", "rawin")
-                                          for v in facts[k] if v is None)
+    unknown = 0 if facts is None else (sum(1 for k in ("can", "req", "con", "cout", "cin", "wchk", "wunchk", "wext", "rawout", "rawin")
+                                           for v in facts[k] if v is None) + sum(1 for _, _, r in facts["sched"] if r is None))
     return {"id": "E6", "facts_changed": changed, "file": str(OUT.relative_to(LEAN)),
-            "entries": 0 if facts is None else 8 * len(facts["quads"]) + 2 * facts["nD"] * facts["nI"],
+            "entries": 0 if facts is None else 8 * len(facts["quads"]) + 2 * facts["nD"] * facts["nI"] + len(facts["sched"]),
             "unknown_entries": unknown if facts is not None else -1, "notes": notes}
